@@ -119,3 +119,22 @@ Proof.
   intros Hz Hl. rewrite <- (ssh_payload_is_spec z Hz) in Hl. rewrite compose_ssh_mpint_nonneg by assumption.
   unfold enc_mpint, enc_string, enc_uint. rewrite (ssh_payload_is_spec z Hz). reflexivity.
 Qed.
+
+(* identification string: the specification accepts exactly the strings of at most 255 characters, CR LF included,
+   and what it emits is SSH-proto-software[ SP comments] CR LF *)
+Lemma banner_length_rule proto software comment :
+  let b := banner_prefix ++ proto ++ [b_dash] ++ software ++ match comment with Some c => b_sp :: c | None => [] end ++ [b_cr; b_lf] in
+  (zlen b <= 255 -> enc_banner proto software comment = Some b) /\ (255 < zlen b -> enc_banner proto software comment = None).
+Proof.
+  cbv zeta. unfold enc_banner, banner_max. cbv zeta.
+  split; intros H; match goal with |- (if ?c then _ else _) = _ => destruct c eqn:E end; try reflexivity.
+  - apply Z.leb_gt in E. exfalso. apply (Z.lt_irrefl 255). eapply Z.lt_le_trans; [exact E|exact H].
+  - apply Z.leb_le in E. exfalso. apply (Z.lt_irrefl 255). eapply Z.lt_le_trans; [exact H|exact E].
+Qed.
+
+Lemma banner_length_formula proto software comment :
+  zlen (banner_prefix ++ proto ++ [b_dash] ++ software ++ match comment with Some c => b_sp :: c | None => [] end ++ [b_cr; b_lf])
+  = 4 + zlen proto + 1 + zlen software + match comment with Some c => 1 + zlen c | None => 0 end + 2.
+Proof.
+  rewrite !zlen_app. destruct comment as [c|]; rewrite ?zlen_cons, ?zlen_nil; change (zlen banner_prefix) with 4; lia.
+Qed.
